@@ -2783,8 +2783,24 @@ def _merge_duplicate_output_identities(graph: ir.Graph) -> None:
 
 
 def _run_common_subexpression_elimination_pass(model: ir.Model) -> None:
+    # A graph output whose producer is merged away is re-created as
+    # Identity(kept value) and inherits the kept value's metadata. Internal
+    # temporaries often carry none, so remember what the outputs declared.
+    declared: Dict[str, Tuple[Any, Any]] = {}
+    for out in model.graph.outputs:
+        name = _v_name(out)
+        if name is not None:
+            declared.setdefault(name, (out.type, out.shape))
     common_passes.CommonSubexpressionEliminationPass()(model)
     _merge_duplicate_output_identities(model.graph)
+    for out in model.graph.outputs:
+        known = declared.get(_v_name(out) or "")
+        if known is None:
+            continue
+        if out.type is None and known[0] is not None:
+            out.type = known[0]
+        if out.shape is None and known[1] is not None:
+            out.shape = known[1]
     for fn in iter_ir_functions(model.functions):
         fn_graph = getattr(fn, "graph", None)
         if isinstance(fn_graph, ir.Graph):
